@@ -58,13 +58,69 @@ Fixpoint rows (n : nat) : list cost * nat * cost :=
 Definition slice_min (row : list cost) (lo hi : nat) : cost :=      (* min(row[lo:hi+1]) *)
   cmin_list (map (rget row) (seq lo (hi + 1 - lo))).
 
-Definition dist_value : cost :=
-  let '(cur, skip, ps) := rows r in
+(* the value read from the last row after the loops *)
+Definition final_value (cur : list cost) (skip : nat) (ps : cost) : cost :=
   if (psi_1e u =? 0)%nat && (psi_2e u =? 0)%nat then rget cur (c - skip)
   else
     let ic := (c - skip)%nat in
     if negb (psi_2e u =? 0)%nat then cmin (slice_min cur (ic - psi_2e u) ic) ps
     else cmin (rget cur ic) ps.
 
+Definition dist_value : cost :=
+  let '(cur, skip, ps) := rows r in final_value cur skip ps.
+
 Definition dist_model : cost := if too_long u s1 s2 then Inf else dist_value.
+
+(* ------------------------------------------------------------------------------
+   The same routine WITH early abandoning (PrunedDTW): bound B = adj_max_dist
+   (max_dist in the internal representation, or the Euclidean bound with use_pruning).
+   sc / ec / ec_next / smaller_found / break exactly as the code has them.       *)
+Variable B : cost.
+
+Record pst := { p_cur : list cost; p_sc : nat; p_smaller : bool; p_ecn : nat; p_stop : bool }.
+
+Definition pstep (i skipp skip : nat) (prev : list cost) (ec : nat) (st : pst) (j : nat) : pst :=
+  if p_stop st then st                                                 (* after "break" *)
+  else
+    let d := pdist (u_inner u) (nth i s1 []) (nth j s2 []) in
+    if negb (cleb (Fin d) (adj_max_step u)) then st                    (* if d > adj_max_step: continue *)
+    else
+      let v := code_cell (adj_penalty u) (Fin d) (rget prev (j - skipp)) (rget prev (j + 1 - skipp))
+                         (rget (p_cur st) (j - skip)) in
+      let cur' := upd_nat (p_cur st) (j + 1 - skip) v in
+      if negb (cleb v B) then                                          (* if dtw[..] > adj_max_dist *)
+        {| p_cur := cur';
+           p_sc := if p_smaller st then p_sc st else (j + 1)%nat;      (* if not smaller_found: sc = j + 1 *)
+           p_smaller := p_smaller st; p_ecn := p_ecn st;
+           p_stop := (ec <=? j)%nat |}                                 (* if j >= ec: break *)
+      else
+        {| p_cur := cur'; p_sc := p_sc st; p_smaller := true; p_ecn := (j + 1)%nat; p_stop := false |}.
+
+(* one iteration of "for i in range(r)" : (new row, sc, ec) *)
+Definition prow_step (i skipp : nat) (prev : list cost) (sc ec : nat) : list cost * nat * nat :=
+  let skip := skip_of i in
+  let j0 := Nat.max (js i) sc in                                       (* if sc > j_start: j_start = sc *)
+  let cur0 := repeat Inf L in
+  let cur1 := if negb (psi_1b u =? 0)%nat && (j0 =? 0)%nat && (i <? psi_1b u)%nat then upd_nat cur0 0 (Fin 0) else cur0 in
+  let st := fold_left (pstep i skipp skip prev ec) (seq j0 (je i - j0))
+                      {| p_cur := cur1; p_sc := sc; p_smaller := false; p_ecn := i; p_stop := false |} in
+  (p_cur st, p_sc st, p_ecn st).                                       (* ec = ec_next *)
+
+Fixpoint prows (n : nat) : list cost * nat * cost * nat * nat :=       (* (row, skip, psi_shortest, sc, ec) *)
+  match n with
+  | O => (row_init, 0%nat, Inf, 0%nat, 0%nat)
+  | S i =>
+    let '(prev, skipp, ps, sc, ec) := prows i in
+    let '(cur, sc', ec') := prow_step i skipp prev sc ec in
+    let ps' := if negb (psi_1e u =? 0)%nat && (je i =? c)%nat && (r - 1 - i <=? psi_1e u)%nat
+               then cmin ps (rget cur (je i - skip_of i)) else ps in
+    (cur, skip_of i, ps', sc', ec')
+  end.
+
+Definition distp_value : cost :=
+  let '(cur, skip, ps, _, _) := prows r in
+  let d := final_value cur skip ps in
+  if negb (cleb d B) then Inf else d.                                  (* if d > adj_max_dist: d = inf *)
+
+Definition distp_model : cost := if too_long u s1 s2 then Inf else distp_value.
 End PyDist.
